@@ -11,6 +11,7 @@ package c05
 import (
 	"io"
 	"net"
+	"os"
 	"time"
 
 	"bytes"
@@ -500,7 +501,7 @@ func runConcFrames(c ConcFrameCase) *pbt.Result {
 		want[string(f)]++
 		total += len(f)
 	}
-	ln, err := net.Listen("tcp", "127.0.0.1:0")
+	ln, err := listenPrivate()
 	if err != nil {
 		return pbt.Fail("harness cannot listen on loopback: %v", err)
 	}
@@ -591,3 +592,20 @@ var specConcFrames = pbt.Register(pbt.Spec[ConcFrameCase]{
 })
 
 func TestConcurrentFrames(t *testing.T) { specConcFrames.Check(t) }
+
+// listenPrivate listens on an ephemeral port of a loopback address private to this process and call (see the same
+// device in the C06 harness): a client left over from another case or process cannot reach it through a re-used port.
+var listenSeq atomic.Int64
+
+func listenPrivate() (net.Listener, error) {
+	var lastErr error
+	for try := 0; try < 20; try++ {
+		n := listenSeq.Add(1)
+		ln, err := net.Listen("tcp", fmt.Sprintf("127.%d.%d.%d:0", 10+os.Getpid()%200, (n/250)%250, 1+n%250))
+		if err == nil {
+			return ln, nil
+		}
+		lastErr = err
+	}
+	return nil, lastErr
+}
